@@ -32,11 +32,19 @@ PROPS = {
 
 
 def do_stream(ctx, name, cases, project, monitors=(), exhaustive=None, oracle=None, nontrivial=None, stall_s=20,
-              impl_only=False, on_obs=None):
+              impl_only=False, on_obs=None, setup=0):
     rep, repo = ctx["rep"], ctx["repo"]
     a, b, incidents, case_by_id, cpath = engine.run_stream(rep, repo, name, cases, stall_s=stall_s, keep_lines=0, impl_only=impl_only)
     if not a:
         return a, b
+    if setup and not impl_only:
+        # generator sanity (judged on the model, so a change to the code cannot trigger or hide it): the first `setup`
+        # texts of every case are set-up texts and must be well-formed, or the stream would be vacuous
+        for cid, lines in b.items():
+            for l in lines:
+                p = l.split(" ", 2)
+                if len(p) > 1 and p[0][:1] == "T" and p[0][1:].isdigit() and int(p[0][1:]) < setup and p[1] in ("parseerr", "scanerr"):
+                    raise core.InfraError("generator bug in stream %s: set-up text %s of case %s is not well-formed: %s" % (name, p[0], cid, l[:200]))
     if impl_only:
         # judged on the implementation alone: the process must survive every case
         bad = []
@@ -200,12 +208,16 @@ def run_C01(ctx):
              "[" + ";".join(",".join(["1"] * 5) for _ in range(5)) + "] * " + "[" + ";".join(",".join(["2"] * 5) for _ in range(5)) + "]",
              "inverse([2,1,0,0,0;1,2,1,0,0;0,1,2,1,0;0,0,1,2,1;0,0,0,1,2])", "determinant(identity(5) * 3)"]
     do_stream(ctx, "nesting", props.expr_cases("n", nest), P)
-    do_stream(ctx, "hist", itertools.chain(props.hist_exhaustive(2 if quick else 3), props.hist_random(rng, 300 if quick else 5000)), P)
+    do_stream(ctx, "hist", itertools.chain(props.hist_exhaustive(3 if quick else 4), props.hist_random(rng, 1000 if quick else 20000),
+                                           props.hist_generated(rng, 1000 if quick else 20000)), P)
+    # printing: every expression form listed back through a definition, and every value form printed
+    from . import rerender
+    do_stream(ctx, "listing", rerender.listing_cases(rng, quick), P)
 
 
 def run_values(ctx, name, exprs, with_info=False, prelude="x = 3\ny = 0.5 - 2*i\nf(x) = x\n", oracle=None, monitors=()):
     P = props.proj_values(with_info=with_info)
-    return do_stream(ctx, name, props.expr_cases(name[0], exprs, prelude=prelude), P, oracle=oracle, monitors=monitors)
+    return do_stream(ctx, name, props.expr_cases(name[0], exprs, prelude=prelude), P, oracle=oracle, monitors=monitors, setup=1 if prelude else 0)
 
 
 def run_C02(ctx):
@@ -225,6 +237,12 @@ def run_C02(ctx):
             "|3e200 + 4e200*i|", "|3e-200*i|", "√(1e300 * i)", "(1e200)^2", "169!", "170!", "171!", "(169+1)!", "1.7e2!", "18!", "19!", "22!", "23!",
             "⌈1e300⌉", "⌊-1e300⌋", "⌈0.1 + 0.2⌉", "⌊0.1 * 3 * 10⌋", "5 % 3", "5.5 % -2", "-5.5 % 2", "(5+5*i) % 3", "(5+5*i) % (1+i)", "7 % 7", "1e300 % 7"]
     run_values(ctx, "edge", edge, oracle=oracles.oracle_numbers)
+    # the same values reached through a variable, a parameter and a function result: binding a value never changes it
+    vals = ["1e-20*i", "3e-17*i", "1 + 1e-17*i", "1e-300", "0*-1", "1e308*10", "1e-20", "2.2e-16*i", "i*4.9e-324", "1e-17 + i", "2 - 1e-16*i", "e^(i*pi)",
+            "1e-200 + 1e-200*i", "-(0*i)", "1e308*10 - 1e308*10", "0.1 + 0.2", "1/3", "2^0.5", "1e21", "9007199254740993"] + \
+        [x for x in props.numbers_for(rng, 40 if quick else 2000)]
+    uses = ["v", "v * 1e20", "1 / v", "⌈v⌉", "v - v", "v ^ 2", "v % 1", "√v", "|v|", "v!", "id(v)", "id(v) * 1e20", "1 / id(v)", "⌊id(v)⌋", "k()", "k() / 1e-17", "v / 1e-17"]
+    run_values(ctx, "bound-values", ["v = %s\nid(q) = q\nk() = %s\n%s" % (e, e, "\n".join(uses)) for e in vals])
 
 
 def run_C03(ctx):
@@ -266,7 +284,14 @@ def run_C03(ctx):
                 toks[pos] = rng.choice(list("()[]|,;=+-*/^!"))
             t = "".join(toks)
         texts.append(t)
+    # long texts: many statements of one form, then an ordinary one (acceptance must not depend on what came before)
+    for form in ["1 as km", "x = 1", "f(a) = a", "delete x", "clear", "(1)", "[1,2;3,4]", "f(1, 2)", "-1!", "|x|", "2 ^ 3 ^ 2", "1 m + 2 m as cm"]:
+        for n in (3, 65, 130):
+            texts.append("\n".join([form] * n) + "\n1 + 2\n")
+            texts.append(";".join([form] * n) + ";1 + 2;")
     do_stream(ctx, "parset", ("parset p%d %d %s" % (k, 4, hx(t)) for k, t in enumerate(texts)), P, oracle=oracles.oracle_parse_text)
+    from . import front
+    front.malformed_text_on_binary(ctx, rng, 30 if quick else 300)
     # consequences: explicit parentheses do not change results
     pe = []
     for k in range(300 if quick else 5000):
@@ -330,6 +355,15 @@ def run_C07(ctx):
 def run_C08(ctx):
     ex = props.builtin_exprs(ctx["rng"], ctx["quick"])
     run_values(ctx, "builtins", ex, with_info=True, oracle=oracles.oracle_builtins)
+    # what a built-in is must not depend on the history of the session
+    hist = []
+    std = {"log": "2, 8", "gcd": "12, 18", "lcm": "4, 6", "identity": "2", "transpose": "[1,2;3,4]", "determinant": "[1,2;3,4]", "inverse": "[1,2;3,4]"}
+    for name in props.BUILTIN_NAMES:
+        arg = std.get(name, "0.5")
+        for pre in ["cp = %s\ncp(qq) = qq + 1\n" % name, "cp = %s\ndelete cp(qq)\ndelete cp(qq, rr)\n" % name, "clear\n", "cp = %s\ncp = 5\ndelete cp\n" % name,
+                    "%s = 3\n%s(qq) = qq\ndelete %s\n" % (name, name, name), "ww(%s) = %s\nww(1)\n" % (name, name)]:
+            hist.append(pre + "%s(%s)\n%s" % (name, arg, name))
+    run_values(ctx, "builtins-after-history", hist, with_info=True)
     mx = [e for e in props.matrix_exprs(ctx["rng"], ctx["quick"]) if any(n in e for n in ("determinant", "inverse", "transpose", "identity"))]
     run_values(ctx, "matrix-builtins", mx, with_info=True, oracle=oracles.oracle_builtins)
     oracles.table_builtins(ctx)
@@ -384,23 +418,29 @@ def run_C10(ctx):
                     cases.append(gen.hist_case("f%d" % n, ["x = 41\nf(a) = a\n", "\n".join(faulty) + "\n", "x\nf\n"]))
                 n += 1
     do_stream(ctx, "fault-injection", cases, P, monitors={"failed_stmt_mutated"}, oracle=oracles.oracle_malformed_text_runs_nothing)
+    from . import front
+    front.malformed_text_on_binary(ctx, rng, 40 if quick else 400)
 
 
 def run_C11(ctx):
     rng, quick = ctx["rng"], ctx["quick"]
     # purity is judged on the implementation by the monitors (deep snapshot around Expr::evaluate, evaluated twice)
     P = props.proj_values(consts_only=True)
-    prelude = ("x = 10\ny = 20\npi2 = 2*pi\nf(x) = x + y\ng(y, sin) = y * 2 + x\nh(pi, e) = pi + e\nk(f) = f + 1\n"
-               "r(0) = 1\nr(n) = n * r(n - 1)\nbad(a) = a / 0\nbad2(a) = unknown + a\nnest(a) = f(g(a, 1)) + h(a, a)\nsh(x) = k(x) + f(x)\n")
-    g = gen.ExprGen(rng, vars_num=("x", "y", "pi2"), funcs=("f", "k", "sh", "nest", "r", "sqrt", "bad", "bad2", "abs"))
+    prelude = ("x = 10\ny = 20\npi2 = 2*pi\nf(x) = x + y\ngg(y, sin) = y * 2 + x\nh(pi, e) = pi + e\nk(f) = f + 1\n"
+               "r(0) = 1\nr(n) = n * r(n - 1)\nbad(a) = a / 0\nbad2(a) = unknown + a\nnest(a) = f(gg(a, 1)) + h(a, a)\nsh(x) = k(x) + f(x)\n"
+               "apply(hh, x) = hh(x)\ntwice(hh) = hh(hh)\nkk() = 2^10 + 3!\nhalf() = 1/2\nww() = √(-4)\ncc() = [1, 2; 3, 4]\ndup(x, x) = x\n")
+    g = gen.ExprGen(rng, vars_num=("x", "y", "pi2"), funcs=("f", "k", "sh", "nest", "sqrt", "bad", "bad2", "abs", "half", "kk"))   # not `r`: r(non-integer) never ends (known finding K4)
     ex = []
     for _ in range(2500 if quick else 50000):
         ex.append(g.expression(rng.choice([1, 2, 3, 4, 6])))
-    ex += ["g(1, 2)", "h(1, 2)", "g(x, y)", "r(5)", "r(0)", "r(2.5 - 0.5)", "bad(1)", "bad2(1)", "nest(3)", "f(f(f(1)))", "k(k(2))", "sh(4)", "g(bad(1), 2)",
-           "f(1) + x", "x + f(1)", "[f(1), x; y, g(1,2)]", "f(1, 2)", "f()", "sin(x)", "h(1)", "r(-1 + 1)", "k(sin)", "k([1,2])"]
-    texts = ["x\ny\nf\ng\nh\nk\nsin\npi\ne\n"]
+    ex += ["gg(1, 2)", "h(1, 2)", "gg(x, y)", "r(5)", "r(0)", "r(2.5 - 0.5)", "bad(1)", "bad2(1)", "nest(3)", "f(f(f(1)))", "k(k(2))", "sh(4)", "gg(bad(1), 2)",
+           "f(1) + x", "x + f(1)", "[f(1), x; y, gg(1,2)]", "f(1, 2)", "f()", "sin(x)", "h(1)", "r(-1 + 1)", "k(sin)", "k([1,2])",
+           "apply(f, 3)", "apply(r, 3)", "apply(sin, 0)", "apply(bad, 1)", "twice(f)", "twice(sin)", "apply(k, 2)", "apply(apply, 1)", "kk()", "half()", "ww()", "cc()",
+           "kk() + half()", "dup(1, 2)", "dup(bad(1), 2)", "apply(dup, 1)", "apply(kk, 1)"]
+    texts = ["x\ny\nf\ngg\nh\nk\nsin\npi\ne\nkk\nhalf\nww\nr\napply\ndup\nhh\n"]
+    ex += []
     do_stream(ctx, "eval-in-env", (gen.hist_case("v%d" % k, [prelude, e + "\n"] + texts) for k, e in enumerate(ex)), P,
-              monitors={"eval_mutated", "eval_not_repeatable"})
+              monitors={"eval_mutated", "eval_not_repeatable"}, setup=1)
     hist_streams(ctx, P, {"eval_mutated", "eval_not_repeatable"})
 
 
@@ -422,9 +462,9 @@ def run_C13(ctx):
     P = props.proj_values(with_env=True, with_text=True, with_info=True)
     hist_streams(ctx, P, set(), oracle=oracles.oracle_dispatch)
     # signatures of arity 0..3 with literals and names in all positions
-    params = ["a", "b", "0", "1", "2.5"]
+    params = ["a", "p", "0", "1", "2.5", "0.00000000000000000001", "10000000000000000", "10000000000000002"]
     sigs = ["()"] + ["(%s)" % p for p in params] + ["(%s, %s)" % (p, q) for p in params for q in params] + \
-        ["(%s, %s, %s)" % (p, q, r) for p in ["a", "0"] for q in ["b", "1"] for r in ["c", "2"]]
+        ["(%s, %s, %s)" % (p, q, r) for p in ["a", "0"] for q in ["p", "1"] for r in ["c", "2"]]
     calls = ["f()", "f(0)", "f(1)", "f(2.5)", "f(7)", "f(0, 0)", "f(0, 1)", "f(1, 0)", "f(3, 4)", "f(2.5, 2.5)", "f(0, 1, 2)", "f(9, 1, 2)", "f(9, 8, 7)",
              "f(1, 2, 3, 4)", "f(i)", "f([1])", "f(1 m)", "f\n"]
     cases = []
@@ -433,12 +473,12 @@ def run_C13(ctx):
         for j in range(rng.randrange(1, 7)):
             s = rng.choice(sigs)
             if rng.random() < 0.7:
-                steps.append("f%s = %d" % (s, 100 * k % 1000 + j))
+                steps.append("f%s = %s" % (s, rng.choice(["%d" % (100 * k % 1000 + j), "a * 100 + p * 10 + c + %d" % j, "p - a", "c"])))
             else:
                 steps.append("delete f%s" % s)
-        cases.append(gen.hist_case("s%d" % k, [st + "\n" + "\n".join(calls) + "\n" for st in steps]))
-    do_stream(ctx, "signatures", cases, P, oracle=oracles.oracle_dispatch)
-    rec = ["g(0) = 1\ng(n) = n * g(n - 1)\ng(5)\ng(0)\ng\n", "fib(0) = 0\nfib(1) = 1\nfib(n) = fib(n-1) + fib(n-2)\nfib(10)\nfib\n",
+        cases.append(gen.hist_case("s%d" % k, ["a = 1000\np = 2000\n" if k % 2 else "c = 3000\n"] + [st + "\n" + "\n".join(calls) + "\n" for st in steps]))
+    do_stream(ctx, "signatures", cases, P, oracle=oracles.oracle_dispatch, setup=1)
+    rec = ["gg(0) = 1\ngg(n) = n * gg(n - 1)\ngg(5)\ngg(0)\ngg\n", "fib(0) = 0\nfib(1) = 1\nfib(n) = fib(n-1) + fib(n-2)\nfib(10)\nfib\n",
            "a(x) = x + w\na(1)\nw = 5\na(1)\nw = 6\na(1)\n", "p(x, x) = x\np(1, 2)\n", "q(x) = x\nq(x) = 2*x\nq(3)\nq(y) = 3*y\nq(3)\nq\n",
            "d(1) = 10\nd(x) = 20\nd(1)\nd(2)\ndelete d(1)\nd(1)\ndelete d(x)\nd(1)\nd\n", "d(x) = 20\nd(1) = 10\nd(1)\nd(2)\nd\n"]
     do_stream(ctx, "recursive-and-order", (gen.hist_case("o%d" % k, [t]) for k, t in enumerate(rec)), P)
@@ -474,6 +514,10 @@ def run_C14(ctx):
             k += 1
     for t in props.shape_pair_exprs(4):
         cases.append(gen.hist_case("d%d" % k, [pre, "1 + 1\n" + t + "\nx + 1\n"]))
+        k += 1
+    for t in ["ff(n) = 1/n\nn = 5\nff(0)\nn\n", "hh(ww) = [1,2] + ww\nhh(3)\nww\n", "ff(n) = 1/n\nff(0)\nn\nff(2)\n", "gg(pi) = pi(1)\ngg(3)\npi\n",
+              "1 +\r\n2\r\n", "x = (1 + 2\r\n", "5 as\r\n", "f(1,\r\n", "1 + 1\r\nnope\r\n2\r\n", "\tx = 1\r\n\tnope + 1\r\n", "1 2\r\n"]:
+        cases.append(gen.hist_case("d%d" % k, [pre, t]))
         k += 1
     two = ["(1/0) + unknown", "unknown + (1/0)", "sin(1/0, unknown)", "[1/0, unknown]", "[unknown; 1/0]", "f(unknown)(1/0)", "unknown(1/0)", "(1/0)(unknown)",
            "(5 m + 1) * (1/0)", "-(1/0) + 2.5!", "|unknown| + ⌈i⌉", "f(1/0, unknown, 3)", "sin(unknown) + sin(1, 2)", "(1/0) as m", "unknown as kg"]
@@ -511,6 +555,14 @@ def run_C15(ctx):
             cases.append("print n%d n:#%s_#%s" % (k, re_, im)); k += 1
     for _ in range(3000 if quick else 100000):
         cases.append("print n%d n:#%s_#%s" % (k, rnd(), rnd() if rng.random() < 0.6 else "0000000000000000")); k += 1
+    wholes = [10 ** e + d for e in range(0, 23) for d in (-1, 0, 1)] + [2 ** e + d for e in (15, 16, 31, 32, 33, 52, 53, 63, 64) for d in (-1, 0, 1)] + \
+        [479001600, 6227020800, 87178291200, 3000000000, 2147483647, 2147483648, 4294967295, 9999999999, 10000000000, 123456789012]
+    for w in wholes:
+        for sgn in (1, -1):
+            b = "%016x" % struct.unpack("<Q", struct.pack("<d", float(sgn * w)))[0]
+            cases.append("print n%d n:#%s_#0000000000000000" % (k, b)); k += 1
+            cases.append("print n%d n:#0000000000000000_#%s" % (k, b)); k += 1
+            cases.append("print q%d q:4:#%s_#0000000000000000" % (k, b)); k += 1
     for u in range(48):
         for re_, im in [("3ff8000000000000", "0000000000000000"), ("0000000000000000", "4000000000000000"), ("3ff8000000000000", "c000000000000000"),
                         ("0000000000000000", "0000000000000000"), ("8000000000000000", "3ff0000000000000"), ("7ff8000000000000", "3ff0000000000000"),
